@@ -46,6 +46,9 @@ CHECKS = {
  'C14': dict(tech='TLA+ gadget relations (ApiSemantics.tla) + generator (ProgGen.tla) + exhaustive constraint solving (ConstraintSat.tla) on rows exported from the real gadgets over F_47',
              text='Every call of cmp.IsLess/IsLessOrEqual, selector.Mux (2-5 inputs), Map, Decoder and bitslice.Partition with every operand-kind pattern is compiled by both builders over F_47; the honest solve must give the exact result inside the domain and fail outside it for every assignment, and every satisfying assignment of every wire (all hinted indicators / bits) must obey the documented relation; TLC enumerates a seeded subset itself with matching state counts.',
              note='The bounded comparator and the 8/32/64-bit word gadgets (wider than the toy field, built on the log-derivative argument) are not covered by this generator.', ref='6 C14'),
+ 'C18': dict(tech='TLA+ model of contribution chains (MpcSetup.tla) enumerated by TLC; every transcript replayed on the real mpcsetup package through serialization, verdicts and extracted keys compared',
+             text='TLC enumerates, for both phases, circuits with/without commitment and 1-3 contributions, the transcripts a verifier may be handed: honest, one serialized element altered (every component x first/mid/last x double/negation/infinity, challenge bit flip), contributions swapped, dropped, duplicated, spliced from a second honest chain, phase 2 checked against another phase-1 output or another circuit; the verdict is "every contribution unaltered and extending its predecessor". Each transcript goes through WriteTo / byte edit / ReadFrom / VerifyPhase1|2 of the real package on the curves; accepted phase-2 transcripts must give keys that prove, verify and reject other public inputs.',
+             note='Knowledge soundness of the update proofs is an ideal rule; replacements are other valid group elements, not arbitrary bytes; small domains only.', ref='6 C18 / 11.2'),
  'C20': dict(tech='TLA+ entropy-as-resource model of prover randomness (Blinding.tla) checked by TLC; every history replayed on the real provers with deterministic parts recomputed from the solved wires and keys',
              text='TLC checks on all histories of 2-3 proofs that every blinded element depends on a fresh symbol; each history (backend x circuits with 0-3 commitments x statistical ZK) is replayed on the real provers of the curves: Groth16 Ar/Bs and PLONK L/R/O are compared with the deterministic commitments recomputed from the captured wire values and the proving key, and all blinded elements (Ar, Bs, Krs, Pedersen commitments; L, R, O, Z, H shards, BSB22 commitments) pairwise across proofs of one witness.',
              note='Presence, freshness and non-degeneracy of blinding are decided, not statistical zero-knowledge; Z and the quotient shards are only compared across proofs.', ref='6 C20'),
